@@ -757,7 +757,13 @@ type ggen struct {
 	noMul bool // inside a recursive function: no multiplication (integers must stay small: the models do not wrap)
 }
 
-func (g *ggen) fresh(p string) string { g.seq++; return p + strconv.Itoa(g.seq) }
+// bound names run through the whole identifier alphabet: a first letter a-z, prefix, number, one more letter
+const gAlphabet = "abcdefghijklmnopqrstuvwxyzABCDEFGHIJKLMNOPQRSTUVWXYZ_"
+
+func (g *ggen) fresh(p string) string {
+	g.seq++
+	return string(gAlphabet[(g.seq*5+len(p))%26]) + p + strconv.Itoa(g.seq) + string(gAlphabet[(g.seq*7+len(p))%len(gAlphabet)])
+}
 func (g *ggen) tag() string           { g.tags++; return "t" + strconv.Itoa(g.tags) }
 func (g *ggen) hit(f string)          { g.feat[f]++ }
 
